@@ -450,8 +450,89 @@ where
     })
 }
 
+/// A ZstCache nested in the root (traced through `Trace::trace`, i.e. subject to its NEEDS_TRACE gate)
+/// keeps its shared allocation alive across collections although nobody else points to it.
+struct CacheRoot<'gc> {
+    cache: ZstCache<'gc, 8>,
+    boxed: Box<ZstCache<'gc, 8>>,
+    keep: Option<Gc<'gc, A1<0>>>,
+    weak: Option<GcWeak<'gc, A1<0>>>,
+}
+unsafe impl<'gc> Collect<'gc> for CacheRoot<'gc> {
+    fn trace<T: Trace<'gc>>(&self, cc: &mut T) {
+        cc.trace(&self.cache);
+        cc.trace(&self.boxed);
+        cc.trace(&self.keep);
+        cc.trace(&self.weak);
+    }
+}
+/// mode: 0 nothing else points to the shared allocation, 1 a served pointer kept in the root, 2 a weak pointer kept;
+/// collect: 0 = finish_cycle x n, 1 = finish_marking + start_sweeping + finish_cycle x n
+fn zst_rooted_case(mode: u8, collect: u8, n: u8) -> Result<(), String> {
+    in_window(|| {
+        let mut arena = talloc::subject(|| {
+            Arena::<Rootable![CacheRoot<'_>]>::new(|mc| CacheRoot { cache: ZstCache::new(mc), boxed: Box::new(ZstCache::new(mc)), keep: None, weak: None })
+        });
+        let addrs = arena.mutate_root(|mc, root| {
+            let g = root.cache.alloc(mc, A1::<0>::new());
+            match mode {
+                0 => {}
+                1 => root.keep = Some(g),
+                _ => root.weak = Some(Gc::downgrade(g)),
+            }
+            [Gc::as_ptr(root.cache.cached_ptr()) as usize, Gc::as_ptr(root.boxed.cached_ptr()) as usize]
+        });
+        let count = arena.metrics().total_gc_count();
+        for round in 0..n {
+            if collect == 1 {
+                if let Some(m) = arena.finish_marking() {
+                    m.start_sweeping();
+                }
+            }
+            arena.finish_cycle();
+            if arena.metrics().total_gc_count() != count {
+                return Err(format!("round {round}: total_gc_count() went from {count} to {} although both caches are reachable from the root", arena.metrics().total_gc_count()));
+            }
+            let r = arena.mutate(|mc, root| -> Result<(), String> {
+                for (which, (c, a)) in [(&root.cache, addrs[0]), (&*root.boxed, addrs[1])].into_iter().enumerate() {
+                    if talloc::addr_allocated(a.wrapping_sub(1)) != Some(true) {
+                        return Err(format!("round {round}: the shared allocation of reachable cache {which} was released"));
+                    }
+                    if Gc::as_ptr(c.cached_ptr()) as usize != a {
+                        return Err(format!("round {round}: cached_ptr() of cache {which} moved"));
+                    }
+                    let z = c.alloc(mc, A1::<0>::new());
+                    let y = c.alloc_zst::<A1<0>>().ok_or("alloc_zst refused a fitting type")?;
+                    if Gc::as_ptr(z) as usize != a || !Gc::ptr_eq(z, y) || !c.is_cached(z) {
+                        return Err(format!("round {round}: cache {which} no longer serves its shared allocation"));
+                    }
+                    if Gc::downgrade(z).is_dropped() || Gc::downgrade(z).upgrade(mc).is_none() {
+                        return Err(format!("round {round}: the shared allocation of reachable cache {which} reports dropped"));
+                    }
+                }
+                if let Some(w) = root.weak {
+                    if w.is_dropped() || w.upgrade(mc).is_none() {
+                        return Err(format!("round {round}: weak pointer to the shared allocation of a reachable cache is dead"));
+                    }
+                }
+                Ok(())
+            });
+            r?;
+        }
+        drop(arena);
+        Ok(())
+    })
+}
+
 pub fn cases(thorough: bool) -> Vec<Case> {
     let mut v: Vec<Case> = vec![];
+    for mode in 0..3u8 {
+        for collect in 0..2u8 {
+            for n in 1..=3u8 {
+                v.push((format!("zst_rooted/mode{mode}/collect{collect}/cycles{n}"), Box::new(move || zst_rooted_case(mode, collect, n))));
+            }
+        }
+    }
     let maxlen = if thorough { 3 } else { 2 };
     // all chains of identity-typed steps up to maxlen, each with every terminal conversion
     let mut chains: Vec<Vec<u8>> = vec![vec![]];
@@ -530,7 +611,7 @@ pub fn run(thorough: bool, only: Option<&str>) -> GridOut {
     GridOut {
         evaluations: n,
         nontrivial,
-        rule: "all chains (length <= 2 quick / 3 thorough) of identity-typed conversions {erase_kind, downgrade+upgrade, as_thin+as_fat, as_ptr+from_ptr, as_thin_ptr+from_thin_ptr_with_kind, stash+fetch} on a sized value x terminal conversions {erase, unsize to dyn Trait, cast to repr(transparent) twin, weak erase, unsize to dyn Debug}; all chains of length <= 3 over the applicable conversions for built slice, str, header+slice, array unsized to slice, RefLock<T> unsized to RefLock<dyn Trait>; converted weak pointers; upgrade + conversions + stash in every phase with the value kept alive by the handle alone; ZstCache<1|8|64> x zero-sized types of alignment 1..128 and non-zero-sized types x alloc/alloc_static/alloc_zst. Non-trivial = at least one conversion step".into(),
+        rule: "all chains (length <= 2 quick / 3 thorough) of identity-typed conversions {erase_kind, downgrade+upgrade, as_thin+as_fat, as_ptr+from_ptr, as_thin_ptr+from_thin_ptr_with_kind, stash+fetch} on a sized value x terminal conversions {erase, unsize to dyn Trait, cast to repr(transparent) twin, weak erase, unsize to dyn Debug}; all chains of length <= 3 over the applicable conversions for built slice, str, header+slice, array unsized to slice, RefLock<T> unsized to RefLock<dyn Trait>; converted weak pointers; upgrade + conversions + stash in every phase with the value kept alive by the handle alone; ZstCache<1|8|64> x zero-sized types of alignment 1..128 and non-zero-sized types x alloc/alloc_static/alloc_zst; a ZstCache held in the root (inline and boxed) x {nothing else, a served pointer, a weak pointer kept} x 1..3 full cycles (plain / via start_sweeping): the shared allocation stays allocated, served and undropped. Non-trivial = at least one conversion step".into(),
         samples: names.iter().step_by((names.len() / 6).max(1)).take(6).map(|s| J::Str(s.clone())).collect(),
         violations: viol.iter().map(|(c, e)| J::obj().with("case", c.as_str()).with("message", e.as_str())).collect(),
         extra: J::obj().with("exhaustive", only.is_none()),
